@@ -47,6 +47,9 @@ func ruleTreeWriters(r *core.Reporter) {
 		for n := range ok0 {
 			ok[p.CurrentName(n)] = true // follows pure renames
 		}
+		if field == "children" && p.Func(rel(pkgModels), "_unsafeRemoveChild") == nil {
+			ok["pkg/models.(*Item).RemoveChild"] = true // the unexported helper folded into its only caller
+		}
 		sts := itemFieldStores(p, field)
 		bad := 0
 		writers := map[string]bool{}
@@ -268,12 +271,17 @@ func ruleAddChildLinks(r *core.Reporter) {
 	// RemoveChild → _unsafeRemoveChild(parent, child.GetID()): removes exactly the matching element
 	ur := p.Func(rel(pkgModels), "_unsafeRemoveChild")
 	rc := p.Func(rel(pkgModels), "(*Item).RemoveChild")
+	folded := false
+	if ur == nil && rc != nil {
+		// the helper folded into RemoveChild by hand: same checks on RemoveChild itself
+		ur, folded = rc, true
+	}
 	if ur == nil || rc == nil {
 		r.Undecided("RemoveChild", "", "anchors not found")
 		return
 	}
 	r.Analysed(ur, rc)
-	okCall := false
+	okCall := folded
 	allInstrs(rc, func(in ssa.Instruction) {
 		if c, ok := in.(*ssa.Call); ok && ir.CalleeOf(c.Common()) == ur {
 			if ir.SameValue(c.Call.Args[0], rc.Params[0]) && ir.Path(c.Call.Args[1]) == "$"+rc.Params[1].Name()+".GetID()" {
@@ -292,7 +300,11 @@ func ruleAddChildLinks(r *core.Reporter) {
 				return false
 			}
 			px, py := ir.Path(a.X), ir.Path(a.Y)
-			return (strings.HasSuffix(px, ".GetID()") && py == "$"+ur.Params[1].Name()) || (strings.HasSuffix(py, ".GetID()") && px == "$"+ur.Params[1].Name())
+			want := "$" + ur.Params[1].Name()
+			if folded {
+				want += ".GetID()" // compared with the id of the child given to RemoveChild
+			}
+			return (strings.HasSuffix(px, ".GetID()") && py == want && px != want) || (strings.HasSuffix(py, ".GetID()") && px == want && py != want)
 		})
 		if c, ok := st.Val.(*ssa.Call); ok && g && ir.CallName(c.Common()) == "builtin.append" {
 			lo, ok1 := c.Call.Args[0].(*ssa.Slice)
